@@ -44,7 +44,8 @@ TROUGH_COLUMNS = tuple(range(1, 25))
 BAD_CLASSES = (
     "row_Z", "col_0", "col_over", "letter_only", "digits_only", "double_letter", "lower", "row_beyond", "padding",
 )
-OPS = ("aspirate", "dispense", "transfer_src", "transfer_dst", "distribute", "evo_aspirate", "evo_dispense")
+OPS = ("aspirate", "dispense", "transfer_src", "transfer_dst", "distribute", "transfer_within_src", "transfer_within_dst",
+       "evo_aspirate", "evo_dispense")
 FORMS = ("scalar", "list1", "bad_first", "bad_last")
 
 KEY_TRANSFER = "C08.transfer_aspirates_before_destination_check"
@@ -206,10 +207,10 @@ def gen_case(rng, tier, index):
     else:
         cls = "col_0"
         bad = _bad_id(rng, lw, cls)
-    ops = OPS if device == "evo" else OPS[:5]
+    ops = OPS if device == "evo" else OPS[:7]
     op = rng.choice(ops)
     form = rng.choice(FORMS)
-    if op.startswith("transfer"):
+    if op.startswith("transfer") and not op.startswith("transfer_within"):
         form = rng.choice(["scalar", "list1"])
     if op == "distribute" and form == "scalar":
         form = "list1"
@@ -266,6 +267,15 @@ def _run_geometry(ctx, case):
     ctx.check("indices_has_one_entry_per_id", len(indices) == n, lambda: dict(geo, size=len(indices)))
     ctx.check("positions_has_one_entry_per_id", len(positions) == n, lambda: dict(geo, size=len(positions)))
     try:
+        # what the helpers return belongs to the caller: an earlier caller that edited its copy must not
+        # change what later callers get for the same geometry
+        scratch_arr = robotools.make_well_array(nr, nc)
+        scratch_idx = robotools.make_well_index_dict(nr, nc)
+        if isinstance(scratch_arr, np.ndarray) and scratch_arr.size:
+            scratch_arr[...] = "X00"
+        if isinstance(scratch_idx, dict) and scratch_idx:
+            scratch_idx.pop(next(iter(scratch_idx)))
+            scratch_idx["alias"] = (0, 0)
         arr = robotools.make_well_array(nr, nc)
         idx = robotools.make_well_index_dict(nr, nc)
         helper_exc = None
@@ -538,6 +548,13 @@ def _run_unknown(ctx, case):
             wl.transfer(plate, "A01", obj, wells, 10.0, label=label)
         elif op == "distribute":
             wl.distribute(src, 0, obj, wells, volume=10.0, label=label or "")
+        elif op == "transfer_within_src":
+            # source and destination are the SAME labware object; the unknown id is on the source side
+            nd = 1 if not isinstance(wells, list) else len(wells)
+            wl.transfer(obj, wells, obj, [good] * nd if isinstance(wells, list) else good, 10.0, label=label or "within")
+        elif op == "transfer_within_dst":
+            nd = 1 if not isinstance(wells, list) else len(wells)
+            wl.transfer(obj, [good] * nd if isinstance(wells, list) else good, obj, wells, 10.0, label=label or "within")
         elif op == "evo_aspirate":
             wl.evo_aspirate(obj, wells if form != "scalar" else [bad], (10, 1), list(range(1, nw + 1)), 10.0, "lc", label=label)
         elif op == "evo_dispense":
